@@ -17,5 +17,7 @@ d=open(sys.argv[1]).read(); c=open(sys.argv[2]).read(); z=open(sys.argv[3]).read
 sys.stdout.write(d.replace('(*CONVZ*)', z).replace('(*CONV*)', c))
 PY
 rm -f *.cmi *.cmx *.o *_model.mli.orig
-ocamlfind ocamlopt -O3 -w -a -package str *_model.mli *_model.ml driver_main.ml -o driver 2>build.log || ocamlfind ocamlopt -w -a *_model.mli *_model.ml driver_main.ml -o driver > build.log 2>&1 || { cat build.log; exit 1; }
+# built beside and renamed into place: a check that is executing the previous driver keeps its inode
+ocamlfind ocamlopt -O3 -w -a -package str *_model.mli *_model.ml driver_main.ml -o driver.new 2>build.log || ocamlfind ocamlopt -w -a *_model.mli *_model.ml driver_main.ml -o driver.new > build.log 2>&1 || { cat build.log; exit 1; }
+mv -f driver.new driver
 echo $h > .hash
